@@ -176,6 +176,15 @@ def write_tree(node, directory, rootdir, names_used, stats, depth=0, anc_dirs=()
         body = write_tree(child, cdir, rootdir, names_used, stats, depth + 1, anc_dirs + (directory,))
         with open(path, 'w', encoding='utf-8') as f:
             f.write(body)
+        if not under_inc and child.place in ('same', 'sub') and env.chash(path[len(rootdir):])[0] % 3 == 0:
+            # a file whose name differs from the written one only in CASE sits in a -i directory: not the file that was asked for
+            cv = os.path.join(rootdir, 'inc1', os.path.dirname(written), os.path.basename(written).swapcase())
+            if cv not in names_used and not os.path.exists(cv):
+                os.makedirs(os.path.dirname(cv), exist_ok=True)
+                with open(cv, 'w', encoding='utf-8') as f:
+                    f.write('error a case-variant of the include name was taken from a -i directory\n')
+                names_used.add(cv)
+                stats['case_variants_in_incdir'] = stats.get('case_variants_in_incdir', 0) + 1
         twin = os.path.join(os.path.dirname(path), os.path.basename(path).lower())
         if twin != path and twin not in names_used:
             # an all-lower-case twin right next to a mixed-case file name: never the file that was asked for
